@@ -90,8 +90,12 @@ func c05SockConn(srv *svc.Server, cid int, seed uint64, ntransfers int) (viol []
 		t.Write(t.Frame(0x0002, ss, nil))
 		var got []svc.Rx
 		for {
-			rx, ok, to := t.Next(60 * time.Second)
+			rx, ok, to := t.Next(45 * time.Second)
 			if to {
+				if serverAnswersFreshConnection(srv.Addr) {
+					bad("reply|an owed reply never came although the server answers fresh connections at once", fmt.Sprintf("conn %d %s: silent for 45 s", cid, log[len(log)-1]))
+					return viol, false, transfers, log
+				}
 				return viol, true, transfers, nil
 			}
 			if !ok {
